@@ -29,7 +29,7 @@ PROP = dict(
         "static strings (no_gc, outside heap_list) are hidden from the snapshot's roots, children and gray stack; a gray-stack entry for one "
         "(the write barrier can push it) is popped by the hook together with the neighbouring increment",
         "Rust Vec/Box/global allocator; byte budgets of the real pacing are finite repetitions of the one-object increments modelled",
-        "objects in channels that belong to another thread's heap are outside this model (property C09, finding D23)",
+        "since fix 97d7808 (D23) a queued channel message is a snapshot owned by the channel, not an object of any thread's heap: a channel object has no children in the snapshot and ChannelWrite/ChannelRead are ordinary mutator steps (a read allocates the rebuilt message, checked by the allocation clause of the contract)",
     ],
     assumptions=["single green thread's heap; the mutator is any step satisfying the contract MutatorOK, which every observed VM step is checked against"],
     design_ref="DESIGN.md §6 C06",
